@@ -139,7 +139,6 @@ func parseClientHello(buf []byte) (*clientHello, error) {
 	if !s.ReadUint24LengthPrefixed(&ss) {
 		return nil, ErrDecodeError
 	}
-	zeros := s
 	s = ss
 
 	// https://datatracker.ietf.org/doc/html/rfc8446#section-4.1.2
@@ -216,7 +215,9 @@ func parseClientHello(buf []byte) (*clientHello, error) {
 		return nil, err
 	}
 	if hello.echExt != nil && hello.echExt.Type == 1 {
-		for _, p := range zeros {
+		// Section 5.1: the padding that follows the extensions in
+		// EncodedClientHelloInner must be all zeros.
+		for _, p := range s {
 			if p != 0 {
 				return nil, ErrIllegalParameter
 			}
